@@ -16,6 +16,11 @@ pub static NEST: crate::scen_hist::Nest = crate::scen_hist::Nest;
 pub static DE: crate::scen_de::De = crate::scen_de::De;
 pub static PIPE: crate::scen_pipe::Pipe = crate::scen_pipe::Pipe;
 
+/// property charged with a hang found by the watchdog in a plan of this scenario
+pub fn panic_prop_of(scenario: &str) -> &'static str {
+    all_scenarios().into_iter().find(|s| s.name() == scenario).map(|s| s.panic_prop()).unwrap_or("C03")
+}
+
 pub fn all_scenarios() -> Vec<&'static dyn Scenario> {
     vec![&CHUNK, &SOUP, &FAULT, &SKIP, &NS, &NEST, &DE, &PIPE, &CORPUS, &CORPUSFAULT]
 }
